@@ -261,6 +261,28 @@ def _elem_kind(ctx, fi, e):
         return "any"
     if isinstance(e, ast.UnaryOp) and isinstance(e.op, ast.USub):
         return _elem_kind(ctx, fi, e.operand)
+    if isinstance(e, ast.Name):
+        # a name unpacked from another position tuple: the kinds of the
+        # elements it can come from
+        try:
+            os_ = ctx.flow.origins(fi, e, depth=6)
+        except Exception:
+            os_ = []
+        ks = set()
+        # (an element "of a constant" is the unpacking of a None default that
+        # the function replaces before use)
+        os_ = [o for o in os_ if not o.kind.endswith("-of-const")]
+        for o in os_:
+            if o.kind == "const" and isinstance(o.node, ast.Constant):
+                ks.add(_elem_kind(ctx, o.fi, o.node))
+            elif o.kind == "other" and isinstance(o.node, ast.UnaryOp):
+                ks.add(_elem_kind(ctx, o.fi, o.node))
+            else:
+                ks.add("any")
+        if os_ and len(ks) == 1 and "any" not in ks:
+            return ks.pop()
+        if os_ and "none" in ks and ks <= {"none", "int"}:
+            return "none"
     t = P.type_of(fi, fi.module, e)
     t = t - {"none"}
     if t == {"int"}:
@@ -278,6 +300,15 @@ def _elem_kind(ctx, fi, e):
 
 
 SINK_ORDER = ("int", "int", "str")   # (lineno, colno, url)
+
+
+# reasoned exception, keyed by function: a position whose line number is None
+NONE_LINENO_OK = {
+    "ZConfig.schema.BaseParser.get_position":
+        "the branch without a locator: xml.sax (expat) calls "
+        "setDocumentLocator before any element event, so schema positions "
+        "always come from the locator branch",
+}
 
 
 def _r2_positions(ctx):
@@ -319,6 +350,18 @@ def _r2_positions(ctx):
                     idx = 1
                 if idx is not None and idx < len(call.args):
                     sinks.append((fi, call, call.args[idx], q))
+    # consumers that order-compare the line number of a caught error
+    lineno_ordered = []
+    for fi in m.functions.values():
+        if fi.module.name != "ZConfig.cfgparser":
+            continue
+        for n_ in walk_shallow(fi.node):
+            if isinstance(n_, ast.Compare) and len(n_.ops) == 1 \
+                    and isinstance(n_.ops[0], (ast.Lt, ast.LtE, ast.Gt,
+                                               ast.GtE)) \
+                    and "lineno" in src(n_.left) and "self" not in src(
+                        n_.left):
+                lineno_ordered.append("%s in %s" % (src(n_), fi.name))
     seen = set()
     n = 0
     for fi, call, arg, q in sinks:
@@ -341,6 +384,11 @@ def _r2_positions(ctx):
                         bad = ("element %d is a %s where the sink expects "
                                "%s (%s)" % (i, k, order[i], want))
                         break
+                if bad is None and kinds[0] == "none" and lineno_ordered \
+                        and o.fi.qualname not in NONE_LINENO_OK:
+                    bad = ("has None as line number, but the line number of "
+                           "an error is order-compared (%s): TypeError"
+                           % lineno_ordered[0])
             run.check(bad is None, "C07.R2", o.fi.qualname, src(o.node),
                       "element kinds %s agree with (lineno, colno, url); "
                       "reaches %s" % (kinds, q.split(".")[-2]),
